@@ -37,6 +37,9 @@ def run(repo, run, tier):
     # unconditionally, or the first steps of the next run are searched on the previous run's pieces (spurious / mislocated events)
     from .c13 import reset_unconditional
     reset_unconditional(repo, run, rule_id="C07.11")
+    # the search functions evaluate the event on THIS system's dense output with THIS call's constants: a wrapper memoised per event callable keeps the first system's
+    from .common import memo_discipline
+    memo_discipline(repo, run, "C07.12", [DS], "the system module (event search functions)")
     from .common import readonly
     readonly(repo, run, "C07.9", DS, ["OdeSystem.events", "OdeSystem.events_dict"], "the event views of the system (events, events_dict)")
 
